@@ -44,6 +44,12 @@ func Ratio(total, part math.Int) math.Int {
 	if total.IsZero() {
 		return math.ZeroInt()
 	}
+	// a group never contributes more than its own 25% weight: the votes cast can exceed the total
+	// recorded for the group when a voter's power is read as of the end of the dispute's block and
+	// the total was recorded while that block was still being executed
+	if part.GT(total) {
+		part = total
+	}
 	total = total.MulRaw(4)
 	totalDec := math.LegacyNewDecFromInt(total)
 	partDec := math.LegacyNewDecFromInt(part)
